@@ -66,6 +66,15 @@ def check(ctx):
         clone_provenance(ctx, o)
     ctx.guarded(o, clone_links)
 
+    o = ctx.ob('clone_keeps_min_start_and_dates', 'R9',
+               "the scheduler works on clones: Task.clone must carry every data field (min_start, fixed dates, estimate, spent) to the copy, "
+               "otherwise the bounds of this property are computed from lost values - shared rule with C10")
+
+    def faithful(o):
+        from . import c10
+        c10._fields(ctx, o)
+    ctx.guarded(o, faithful)
+
     # the schedulers start their search at IResource.get_nearest_availability_date: its shape is C17's obligation, reused here
     from . import c17 as _c17
     _c17._search(ctx)
